@@ -319,38 +319,38 @@ def build(ctx):
     t += SPEC
     t += 'impl ActivePeersInner {\n'
 
-    t += C.fn(CM, 'impl ActivePeersInner :: fn new', 'ActivePeersInner::new', ['C04'], ret='r', spec='''
+    t += C.fn(CM, 'impl ActivePeersInner :: fn new', 'ActivePeersInner::new', ['C04'], optional=True, ret='r', spec='''
     ensures
         r.view() == AState::init(), // @OBL ActivePeersInner::new::empty [C04] a new active-peer set has no connections, an empty event log and nothing closed
 ''', rewrites=[('X7', 'peer_event_sender: sender,', 'peer_event_sender: sender, closed: Ghost(Seq::empty()),', 1),
                ('X5', 'Default::default()', 'HashMap::new()', 1)],
         body_prefix='\n        broadcast use axiom_peer_id_key;\n')
 
-    t += C.fn(CM, 'impl ActivePeersInner :: fn peers', 'ActivePeersInner::peers', [], ret='r', spec='''
+    t += C.fn(CM, 'impl ActivePeersInner :: fn peers', 'ActivePeersInner::peers', [], optional=True, ret='r', spec='''
     ensures
         r@.to_set() =~= self.connections@.dom(),
         r@.no_duplicates(),
 ''', attrs='#[verifier::external_body] // ASSUMED: keys().copied().collect() is outside Verus; bounded Kani stand-in in unit kani_peers_bounded\n',
         probe=False, prose='ASSUMED (external_body)')
 
-    t += C.fn(CM, 'impl ActivePeersInner :: fn subscribe', 'ActivePeersInner::subscribe', ['C04'], ret='r', spec='''
+    t += C.fn(CM, 'impl ActivePeersInner :: fn subscribe', 'ActivePeersInner::subscribe', ['C04'], optional=True, ret='r', spec='''
     ensures
         r.0.start@ == self.peer_event_sender.log@.len(), // @OBL ActivePeersInner::subscribe::receiver_at_log_end [C04] the receiver sees exactly the events sent after the snapshot was taken (same critical section)
         r.1@.to_set() =~= self.connections@.dom(), // @OBL ActivePeersInner::subscribe::snapshot_is_listing [C04] the snapshot is exactly the current listing
         r.1@.no_duplicates(), // @OBL ActivePeersInner::subscribe::snapshot_no_duplicates [C04] the snapshot contains no duplicates
 ''', rewrites=[('X5', 'broadcast::Receiver<PeerEvent>', 'Receiver', 1)])
 
-    t += C.fn(CM, 'impl ActivePeersInner :: fn len', 'ActivePeersInner::len', ['C04', 'C10'], ret='r', spec='''
+    t += C.fn(CM, 'impl ActivePeersInner :: fn len', 'ActivePeersInner::len', ['C04', 'C10'], optional=True, ret='r', spec='''
     ensures
         r == self.connections@.dom().len(), // @OBL ActivePeersInner::len::is_listing_size [C04,C10] len() is the number of established connections, inbound and outbound alike
 ''', body_prefix='\n        broadcast use axiom_peer_id_key;\n')
 
-    t += C.fn(CM, 'impl ActivePeersInner :: fn get', 'ActivePeersInner::get', ['C04', 'C09'], ret='r', spec='''
+    t += C.fn(CM, 'impl ActivePeersInner :: fn get', 'ActivePeersInner::get', ['C04', 'C09'], optional=True, ret='r', spec='''
     ensures
         r == (if self.connections@.contains_key(*peer_id) { Some(self.connections@[*peer_id]) } else { None::<Connection> }), // @OBL ActivePeersInner::get::is_view_lookup [C04,C09] get() returns the stored connection of that peer or None
 ''', body_prefix='\n        broadcast use axiom_peer_id_key;\n')
 
-    t += C.fn(CM, 'impl ActivePeersInner :: fn contains', 'ActivePeersInner::contains', ['C04', 'C13'], ret='r', spec='''
+    t += C.fn(CM, 'impl ActivePeersInner :: fn contains', 'ActivePeersInner::contains', ['C04', 'C13'], optional=True, ret='r', spec='''
     ensures
         r == self.connections@.contains_key(*peer_id), // @OBL ActivePeersInner::contains::is_view_membership [C04,C13] contains() is membership in the listing
 ''', body_prefix='\n        broadcast use axiom_peer_id_key;\n')
@@ -365,7 +365,7 @@ def build(ctx):
         final(self).view() =~~= rm_sid_spec(old(self).view(), peer_id, stable_id, reason), // @OBL ActivePeersInner::remove_with_stable_id::transition [C04,C05,C09] removal only if the stored connection is the one that ended (same stable id); otherwise nothing at all changes
 ''', '\n        broadcast use axiom_peer_id_key;\n', [normalise_entry_moves, ghost_close_log])
 
-    t += C.fn(CM, 'impl ActivePeersInner :: fn send_event', 'ActivePeersInner::send_event', ['C04'], spec='''
+    t += C.fn(CM, 'impl ActivePeersInner :: fn send_event', 'ActivePeersInner::send_event', ['C04'], optional=True, spec='''
     ensures
         final(self).peer_event_sender.log@ == old(self).peer_event_sender.log@.push(event), // @OBL ActivePeersInner::send_event::appends [C04] send_event appends exactly this event
         final(self).connections == old(self).connections, // @OBL ActivePeersInner::send_event::frame_connections [C04] send_event does not touch the connection map
@@ -390,7 +390,7 @@ def build(ctx):
         }), // @OBL ActivePeersInner::add::mixed_origin_keeps_greater_dialer [C05] with one inbound and one outbound connection to the same peer, the one dialed by the greater PeerId is kept, the other closed
 ''', '\n        broadcast use axiom_peer_id_key;\n', [ghost_close_log])
 
-    t += C.fn(CM, 'impl ActivePeersInner :: fn simultaneous_dial_tie_breaking', 'ActivePeersInner::simultaneous_dial_tie_breaking', ['C05'], ret='r', spec='''
+    t += C.fn(CM, 'impl ActivePeersInner :: fn simultaneous_dial_tie_breaking', 'ActivePeersInner::simultaneous_dial_tie_breaking', ['C05'], optional=True, ret='r', spec='''
     ensures
         existing_origin != new_origin ==> r == keep_new_mixed(*own_peer_id, *remote_peer_id, new_origin), // @OBL tie_break::mixed_origin [C05,C04] replace the existing connection iff the new one was dialed by the greater PeerId (depends only on ids and directions)
         existing_origin == new_origin ==> r == true, // @OBL tie_break::same_origin [] (from the code comment, not from any property) two connections of the same origin: the newer replaces the older
@@ -410,35 +410,35 @@ impl ActivePeers {
     { proof { self.1@ = self.1@ + 1; } &mut self.0 }
 """
     W = 'impl ActivePeers :: fn '
-    t += C.fn(CM, W + 'subscribe', 'ActivePeers::subscribe', ['C04'], ret='r', rewrites=[('X5', 'broadcast::Receiver<PeerEvent>', 'Receiver', 1)], sig_rewrites=[('&self', '&mut self')], spec="""
+    t += C.fn(CM, W + 'subscribe', 'ActivePeers::subscribe', ['C04'], optional=True, ret='r', rewrites=[('X5', 'broadcast::Receiver<PeerEvent>', 'Receiver', 1)], sig_rewrites=[('&self', '&mut self')], spec="""
     ensures
         final(self).1@ == old(self).1@ + 1, // @OBL ActivePeers::subscribe::one_critical_section [C04] the whole operation is ONE critical section: exactly one lock acquisition (no check-then-act across two)
         final(self).0 == old(self).0, // @OBL ActivePeers::subscribe::read_only [C04] a read operation changes nothing in the set
         r.0.start@ == old(self).0.peer_event_sender.log@.len() && r.1@.to_set() =~= old(self).0.connections@.dom() && r.1@.no_duplicates(), // @OBL ActivePeers::subscribe::delegates [C04] subscribe() takes snapshot and receiver under one lock acquisition
 """)
-    t += C.fn(CM, W + 'get', 'ActivePeers::get', ['C04', 'C09'], ret='r', sig_rewrites=[('&self', '&mut self')], spec="""
+    t += C.fn(CM, W + 'get', 'ActivePeers::get', ['C04', 'C09'], optional=True, ret='r', sig_rewrites=[('&self', '&mut self')], spec="""
     ensures
         final(self).1@ == old(self).1@ + 1, // @OBL ActivePeers::get::one_critical_section [C04] the whole operation is ONE critical section: exactly one lock acquisition (no check-then-act across two)
         final(self).0 == old(self).0, // @OBL ActivePeers::get::read_only [C04] a read operation changes nothing in the set
         r == (if old(self).0.connections@.contains_key(*peer_id) { Some(old(self).0.connections@[*peer_id]) } else { None::<Connection> }), // @OBL ActivePeers::get::delegates [C04,C09] get() is the lookup in the locked set
 """)
-    t += C.fn(CM, W + 'len', 'ActivePeers::len', ['C04', 'C10'], ret='r', sig_rewrites=[('&self', '&mut self')], spec="""
+    t += C.fn(CM, W + 'len', 'ActivePeers::len', ['C04', 'C10'], optional=True, ret='r', sig_rewrites=[('&self', '&mut self')], spec="""
     ensures
         final(self).1@ == old(self).1@ + 1, // @OBL ActivePeers::len::one_critical_section [C04] the whole operation is ONE critical section: exactly one lock acquisition (no check-then-act across two)
         final(self).0 == old(self).0, // @OBL ActivePeers::len::read_only [C04] a read operation changes nothing in the set
         r == old(self).0.connections@.dom().len(), // @OBL ActivePeers::len::delegates [C04,C10] len() is the size of the locked set
 """)
-    t += C.fn(CM, W + 'remove', 'ActivePeers::remove', ['C04', 'C09'], sig_rewrites=[('&self', '&mut self')], spec="""
+    t += C.fn(CM, W + 'remove', 'ActivePeers::remove', ['C04', 'C09'], optional=True, sig_rewrites=[('&self', '&mut self')], spec="""
     ensures
         final(self).1@ == old(self).1@ + 1, // @OBL ActivePeers::remove::one_critical_section [C04] the whole operation is ONE critical section: exactly one lock acquisition (no check-then-act across two)
         final(self).0.view() =~~= rm_spec(old(self).0.view(), *peer_id, reason), // @OBL ActivePeers::remove::delegates [C04,C09] remove() is exactly the inner transition, under one write-lock acquisition
 """)
-    t += C.fn(CM, W + 'remove_with_stable_id', 'ActivePeers::remove_with_stable_id', ['C04', 'C05'], sig_rewrites=[('&self', '&mut self')], spec="""
+    t += C.fn(CM, W + 'remove_with_stable_id', 'ActivePeers::remove_with_stable_id', ['C04', 'C05'], optional=True, sig_rewrites=[('&self', '&mut self')], spec="""
     ensures
         final(self).1@ == old(self).1@ + 1, // @OBL ActivePeers::remove_with_stable_id::one_critical_section [C04,C05] the whole operation is ONE critical section: exactly one lock acquisition (no check-then-act across two)
         final(self).0.view() =~~= rm_sid_spec(old(self).0.view(), peer_id, stable_id, reason), // @OBL ActivePeers::remove_with_stable_id::delegates [C04,C05,C09] remove_with_stable_id() is exactly the inner transition, under one write-lock acquisition
 """)
-    t += C.fn(CM, W + 'add', 'ActivePeers::add', ['C04', 'C05', 'C03'], ret='r', sig_rewrites=[('&self', '&mut self')], spec="""
+    t += C.fn(CM, W + 'add', 'ActivePeers::add', ['C04', 'C05', 'C03'], optional=True, ret='r', sig_rewrites=[('&self', '&mut self')], spec="""
     ensures
         final(self).1@ == old(self).1@ + 1, // @OBL ActivePeers::add::one_critical_section [C04,C05] the whole operation is ONE critical section: exactly one lock acquisition (no check-then-act across two)
         ({
@@ -463,6 +463,7 @@ impl ActivePeers {
 // ---------- trusted stand-in: quinn::ConnectionError (payloads opaque) ----------
 pub struct Opaque;
 pub enum ConnectionError { VersionMismatch, TransportError(Opaque), ConnectionClosed(Opaque), ApplicationClosed(Opaque), Reset, TimedOut, LocallyClosed, CidsExhausted }
+pub mod quinn { pub use super::ConnectionError; }
 pub open spec fn reason_of(e: ConnectionError) -> DisconnectReason {
     match e {
         ConnectionError::VersionMismatch => DisconnectReason::VersionMismatch,
@@ -501,4 +502,4 @@ impl DisconnectReason {
 
 
 def _fn_with(C, rel, path, key, props, ret, spec, body_prefix, transforms):
-    return C.fn(rel, path, key, props, ret=ret, spec=spec, body_prefix=body_prefix, transforms=transforms, optional=(key == 'ActivePeersInner::remove_with_stable_id'))
+    return C.fn(rel, path, key, props, ret=ret, spec=spec, body_prefix=body_prefix, transforms=transforms, optional=True)
